@@ -226,6 +226,12 @@ def gen_cases(ctx):
             add(beam, "Beam", "line", sel, kinds=("const", "poly", "nodal") if len(ul) > 1 or ul == ["y"] else ("poly",), unknowns=ul)
     for ul in (lists3 if not quick else rng.sample(lists3, 4)):
         add(beam3, "Beam", "line", rng.choice([allb, partb]), kinds=("const", "poly"), unknowns=ul)
+    # pressure on CLOSED, non-planar boundaries: the resultant must be what the nodal-normal model predicts
+    # (p * t * sum_j a_j nhat_j), which is NOT zero in general (C09_pressure_closed_surface_refuted)
+    for pts, ms in (([(0, 0), (4, 0), (4, 3)], 10.0), ([(0, 0), (4, 0), (4, 3)], 1.5), ([(0, 0), (4, 0), (4, 1), (1, 1), (1, 3), (0, 3)], 2.0)):
+        cases.append({"id": len(cases), "mesh": {"kind": "poly2d", "elemType": "TRI3", "points": [list(p) for p in pts], "ms": ms},
+                      "simu": "Elastic", "load": "pressure", "vkind": "const", "selection": {"type": "all"}, "closed_pressure": True,
+                      "thickness": rng.choice([0.5, 2.0]), "magnitude": rng.choice([-3.0, 2.0]), "unknowns": [], "values": []})
     # thermal patch: load and conductivity must carry the same thickness
     cases.append({"id": len(cases), "mesh": meshes2[2], "simu": "Thermal", "load": "surf", "vkind": "const",
                   "selection": {"type": "face", "axis": 0, "value": 2}, "thickness": 3.0, "unknowns": ["t"],
@@ -444,6 +450,48 @@ def expected_for(c, r, center):
     return {"R": R, "M": M, "zero_nodes": zero, "loaded": loaded, "measure": meas, "tfac": tfac}
 
 
+def judge_closed_pressure(ctx, c, r, seen):
+    """the model of Mesh.Get_normals + nodal-array integration on straight SEG2 boundaries: nhat_j =
+    normalised mean of the UNIT normals of the selected segments at node j, lumped
+    length a_j = half the adjacent lengths; resultant = p * t * sum_j a_j nhat_j."""
+    import math
+    coords = [[float.fromhex(v) for v in row] for row in r["coords"]]
+    segs = [g for g in r["groups"] if g["dim"] == 1]
+    av, al = {}, {}
+    exact = [0.0, 0.0]
+    for g in segs:
+        for e in g["excl"]:
+            a, b = g["connect"][e][0], g["connect"][e][1]
+            tx, ty = coords[b][0] - coords[a][0], coords[b][1] - coords[a][1]
+            ln = math.hypot(tx, ty)
+            nvec = (ty / ln, -tx / ln)   # UNIT normal (Get_normals sums the unit normals over the Gauss points); global sign fixed below
+            exact[0] += ln * nvec[0]
+            exact[1] += ln * nvec[1]
+            for n in (a, b):
+                av.setdefault(n, []).append(nvec)
+                al[n] = al.get(n, 0.0) + ln / 2
+    pred = [0.0, 0.0]
+    for n, vs in av.items():
+        mx, my = sum(v[0] for v in vs) / len(vs), sum(v[1] for v in vs) / len(vs)
+        nm = math.hypot(mx, my)
+        pred[0] += al[n] * mx / nm
+        pred[1] += al[n] * my / nm
+    unk = r["all_unknowns"]
+    R = [sum(row[unk.index(u)] for row in r["F"]) for u in ("x", "y")]
+    k = float(c["magnitude"]) * float(c["thickness"])
+    scale = abs(k) * sum(al.values())
+    # the orientation of the boundary elements fixes the global sign (either all outward or all inward)
+    err = min(max(abs(R[i] - s * k * pred[i]) for i in range(2)) for s in (1.0, -1.0))
+    ctx.note_case("closed-pressure:%d-segments" % sum(len(g["excl"]) for g in segs))
+    ctx.cov.setdefault("closed_pressure_resultant_over_pA", []).append([round(R[0] / scale, 6), round(R[1] / scale, 6)])
+    if err > TOL * scale:
+        key = "pressure:closed-boundary:nodal-normal-model"
+        if key not in seen:
+            seen.add(key)
+            ctx.violation(key, "pressure on the whole (closed, kinked) boundary of a %d-gon: resultant %s, nodal-normal model p*t*sum_j a_j nhat_j = +/-%s (exact closed-surface value 0 is NOT expected: C09_pressure_closed_surface_refuted)"
+                          % (len(c["mesh"]["points"]), R, [k * p for p in pred]), {"case": c, "resultant": R, "model": [k * p for p in pred]}, found_input=False)
+
+
 def coq_select_cases(cases, results, budget=None, rng=None):
     def L(xs):
         return "[" + "; ".join(str(int(x)) for x in xs) + "]"
@@ -569,6 +617,8 @@ def run(ctx):
     import re as _re
     mfam = _re.findall(r'\("(EULER_BERNOULLI\d)",\s*(true|false)\)', res.log)
     ctx.cov["hermite_load_identities_exact"] = {k: v == "true" for k, v in mfam}
+    mtol = _re.findall(r'\("(EULER_BERNOULLI\d)",\s*(true|false),\s*(true|false)\)', res.log)
+    ctx.cov["hermite_load_identities_residual_below_1e-13"] = {k: (a == "true" and b == "true") for k, a, b in mtol}
     if not res.ok:
         ctx.violation("coq:C09_theorems", "the property theorems no longer compile", {"log": res.log[-3000:]}, found_input=False)
         return
@@ -576,7 +626,8 @@ def run(ctx):
     cases = gen_cases(ctx)
     # a few plain cases are also run inside Coq on the implementation's quadrature data
     cand = [c for c in cases if c["load"] in ("line", "surf", "volume") and c.get("vkind") in ("const", "poly") and c["simu"] != "Beam"
-            and not c.get("solve_thermal_patch")]
+            and not c.get("solve_thermal_patch")
+            and (ctx.tier != "quick" or c["mesh"]["elemType"] in ("TRI3", "QUAD4", "TRI6", "TETRA4", "HEXA8", "PRISM6"))]
     for c in ctx.rng.sample(cand, min(len(cand), 4 if ctx.tier == "quick" else 30)):
         c["expose"] = True
     seqs = gen_sequences(ctx, len(cases))
@@ -637,6 +688,9 @@ def run(ctx):
             continue
         if r.get("empty"):
             ctx.note_case(None)
+            continue
+        if c.get("closed_pressure"):
+            judge_closed_pressure(ctx, c, r, seen)
             continue
         center = [F(ctx.rng.randint(-8, 8), 4) for _ in range(3)]
         try:
